@@ -4,7 +4,7 @@
    answers of the disjunction are, as a multiset, the union of the clauses' own answers. *)
 From Coq Require Import List Permutation ZArith Arith.
 From PV Require Import Model.Term Model.Subst Model.State Model.Engine Spec.StreamSem
-  Proofs.StreamProofs Proofs.EngineProofs Gen.RelDefs.
+  Proofs.StreamProofs Proofs.EngineProofs Proofs.SemProofs Proofs.PureElab Proofs.FairProofs Proofs.Fair10 Gen.RelDefs.
 Import ListNotations.
 
 Theorem C10_union : forall defs m n st A B zs,
@@ -38,6 +38,19 @@ Theorem C10_no_leak : forall defs m k n st gs a,
   exists c, In c gs /\ inS (start defs (S m)) (start defs n c st) a.
 Proof. intros defs m k n st gs a. rewrite start_conde. exact (conde_in defs m k n st gs a). Qed.
 
+(* at the level of goals, on the pure relational fragment (C07): the answers of a disjunction are EXACTLY the
+   answers of its clauses run alone from the same state - (1) nothing leaks: each answer of the disjunction is
+   an answer one clause delivers by itself; (2) nothing is lost: each answer a clause delivers by itself is
+   delivered by the disjunction (after finitely many steps, unless an engine step errs first) *)
+Theorem C10_exactly_the_union : forall defs,
+  (forall r d, find_def r defs = Some d -> psrc (d_body d)) ->
+  forall gs st, pureg (CConde BFS gs) ->
+  (forall k u m a rest u', next defs k u (start defs m (CConde BFS gs) st) = NAnswer a rest u' ->
+     exists c n, In c gs /\ emitsE (startq defs) n (startq defs c st) a) /\
+  (forall c k u m a rest u', In c gs -> next defs k u (start defs m c st) = NAnswer a rest u' ->
+     exists n, emitsE (startq defs) n (startq defs (CConde BFS gs) st) a).
+Proof. exact disjunction_exactly_union. Qed.
+
 Check C10_union : forall defs m n st A B zs,
   ansS (start defs (S m)) (start defs (S n) (CConde BFS [A; B]) st) zs ->
   exists xs ys, ansS (start defs (S m)) (start defs n A st) xs /\
@@ -45,3 +58,4 @@ Check C10_union : forall defs m n st A B zs,
 Print Assumptions C10_union.
 Print Assumptions C10_union_dfs.
 Print Assumptions C10_no_leak.
+Print Assumptions C10_exactly_the_union.
